@@ -15,6 +15,7 @@ import (
 	"fmt"
 	"os"
 	"path/filepath"
+	"runtime/debug"
 	"sort"
 	"strings"
 	"time"
@@ -34,6 +35,11 @@ type mutantResult struct {
 }
 
 func runRulesFresh(spec *propSpec, tier string, u1, u2 *Universe) *Ctx {
+	resetAnalysisCaches()
+	defer func() {
+		resetAnalysisCaches()
+		debug.FreeOSMemory()
+	}()
 	c := newCtx(spec.ID, tier)
 	c.U1, c.U2 = u1, u2
 	func() {
